@@ -26,7 +26,7 @@ def run(ctx: Ctx) -> int:
         "same family as C01; per program, detector and governed field one direct-check (FREE) exploration: comparisons of the field read in the same block against a "
         "same-block constant are interpreted by z3, every other condition is a fresh value; two-field detectors are projected per field and combined per block trace; "
         "if no accepting path carries the dangerous value, real run_detectors() must report nothing; non-trivial = the detector reported at least one path",
-        [du.detect_missing_tx_field_validations, du.validated_in_block, D._block_level_constraints, D._path_level_constraints, D._calculate_reachin, D._calculate_livein],
+        [lambda: du.detect_missing_tx_field_validations, lambda: du.validated_in_block, lambda: D._block_level_constraints, lambda: D._path_level_constraints, lambda: D._calculate_reachin, lambda: D._calculate_livein],
         {"unroll": 2, "call_depth": 3, "detectors": 9},
         ["FREE reading is deliberately weaker than the AVM semantics (it may only admit more executions), so this obligation can never demand more precision than the property states"],
     )
